@@ -70,6 +70,46 @@ def copyApiOf : Nat → Option CopyApi
 def allCopyApis : List CopyApi :=
   [.default, .deepTrue, .deepFalse, .data, .deepTrueData, .deepFalseData, .pyCopy, .pyDeepcopy]
 
+def elemOf : Nat → Option Elem
+  | 0 => some .node | 1 => some .edge | 2 => some .face | _ => none
+
+def aggOf : Nat → Option Agg
+  | 0 => some .mean | 1 => some .max | 2 => some .min | 3 => some .prod | 4 => some .sum
+  | 5 => some .std | 6 => some .var | 7 => some .median | 8 => some .all | 9 => some .any | _ => none
+
+def elemP : P Elem := do
+  match elemOf (← nat) with
+  | some e => pure e
+  | none => failure
+
+/-- a public uxarray call: `code params…` (see `uxCallNames` for the codes) -/
+def uxCallP : P UxCall := do
+  match (← nat) with
+  | 0 => do let g ← nat; let e ← elemP; return .remapNN g e
+  | 1 => do let g ← nat; let e ← elemP; return .remapIDW g e
+  | 2 => do
+      let a ← nat; let e ← elemP
+      match aggOf a with
+      | some ag => return .topo ag e
+      | none => failure
+  | 3 => pure .gradient
+  | 4 => pure .difference
+  | 5 => pure .integrate
+  | 6 => do let e ← elemP; let c ← countsP; return .isel e c
+  | 7 => do let e ← elemP; let c ← countsP; return .subsetNN e c
+  | 8 => do let e ← elemP; let c ← countsP; return .subsetCircle e c
+  | 9 => do let e ← elemP; let c ← countsP; return .subsetBox e c
+  | 10 => do let c ← countsP; return .crossSectionLat c
+  | 11 => do let b ← bool; let c ← countsP; return .getDual b c
+  | _ => failure
+
+/-- names of the public calls of the model's table, in code order (compared by the harness with the
+    constructor sites it finds in the source) -/
+def uxCallNames : List String :=
+  ["remap.nearest_neighbor", "remap.inverse_distance_weighted", "topological_*", "gradient", "difference",
+   "integrate", "isel", "subset.nearest_neighbor", "subset.bounding_circle", "subset.bounding_box",
+   "cross_section.constant_latitude", "get_dual"]
+
 def opP : P Op := do
   match (← nat) with
   | 0 => do return .elem (← kindP)
@@ -92,6 +132,7 @@ def opP : P Op := do
   | 15 => do let g ← nat; let d ← dimP; return .remap g d
   | 16 => do let c ← bool; let k ← countsP; return .getDual c k
   | 17 => do let k ← nat; let l ← bool; return .expandDims k l
+  | 19 => do return (← uxCallP).op
   | 18 => do
       let a ← nat; let f ← bool
       match copyApiOf a with
@@ -128,6 +169,9 @@ def handle (cmd : String) (args : List Int) : Option String :=
   | "C10.inv" => do
       let s ← run stateP args
       pure (encBool (attachedB s))
+  | "C10.uxcalls" => do
+      run (pure ()) args
+      pure (" ".intercalate uxCallNames)
   | "C10.copydeep" => do
       run (pure ()) args
       pure (encNats (allCopyApis.map (fun a => if a.deep then 1 else 0)))
